@@ -213,6 +213,29 @@ def lexer_escape_sets(fx):
     return out, names, a
 
 
+GREEDY = re.compile(r'^core::str::<impl str>::(trim|trim_matches|trim_start_matches|trim_end_matches|trim_left_matches|trim_right_matches|trim_start|trim_end)$')
+
+
+def greedy_trims(b, rep):
+    for bi, t in b.calls():
+        n = F.norm_callee(t) or ''
+        if GREEDY.match(n):
+            fn = F.norm_path(b.path)
+            rep.violation('R3', 'greedy-trim/%s/%s' % (re.sub(r'^.*::', '', re.sub(r'::\{closure#\d+\}', '', fn)) if not fn.startswith('verif_fixtures') else fn, n.rsplit('::', 1)[-1]), F.loc_of(t['span']),
+                          '%s removes every leading/trailing match, also quote characters that belong to the content: b\'it\\\'\' and b\'\'\'\'a\'\'\' lose bytes (strip exactly the delimiter: strip_prefix/strip_suffix or a slice)' % n)
+
+
+def fixtures(ffx, rep):
+    from .report import Collector, expect_fixture_hits
+    col = Collector()
+    for b in ffx.bodies.values():
+        if b.path.startswith('verif_fixtures::c12::'):
+            greedy_trims(b, col)
+    expect_fixture_hits(rep, col, {'R3': ['greedy-trim/verif_fixtures::c12::greedy_delimiters/trim_matches', 'greedy-trim/verif_fixtures::c12::greedy_suffix/trim_start_matches', 'greedy-trim/verif_fixtures::c12::greedy_suffix/trim_end_matches']})
+    silent = [k for k in col.bad.get('R3', []) if 'good' in k]
+    rep.check(not silent, 'fixture', 'R3/silent-on-exact-stripping', 'fixtures/', 'strip_prefix/strip_suffix accepted', 'rule fires on exact stripping: %s' % silent)
+
+
 def run(fx, rep):
     rep.rule('R1', 'escape tables of both decoders equal the CEL specification and accept exactly what the lexer admits; numeric helpers: radix, digit counts, bound; raw strings ignore backslashes')
     rep.rule('R2', 'invalid code points are errors (char::from_u32 propagated, no replacement)')
@@ -398,4 +421,13 @@ def run(fx, rep):
                         if F.term_contains(x, lambda y: y[0] == 'const' and y[1] in ('r', 'R', 'br', 'bR', 'Br', 'BR')) or (x[0] == 'agg' and any(e == ('const', 'r') for e in x[2])):
                             tests_raw = True
         rep.check(tests_raw, 'R3', 'bytes/raw-prefix-recognised', vb.loc(), 'the raw prefix r|R is recognised', 'the lexer admits raw bytes literals (b r\'..\') but visit_Bytes never looks for the r|R prefix: raw bytes are escape-processed and keep a quote')
+    # greedy trimming of the literal text
+    lit = [b for b in fx.bodies.values() if b.raw['kind'] != 'Promoted' and not b.is_derived() and
+           ((b.crate == 'cel_parser' and b.path.startswith(PARSE)) or
+            (b.crate == 'cel_parser' and 'parser.rs' in b.loc() and re.search(r'::visit_(Bytes|String)(::|$)', b.path)))]
+    ng = 0
+    for b in lit:
+        ng += 1
+        greedy_trims(b, rep)
+    rep.check(ng >= 10, 'R3', 'literal-text-functions-found', 'antlr/src/parse.rs', '%d functions handle literal text' % ng, 'only %d literal-text functions found (anchor lost)' % ng)
     rep.floor('R1', 190)
